@@ -2,7 +2,7 @@
 """writes seeded/<id>-m5..m7/meta.json from tools/r3_meta_table.py, confirm.txt and the check outputs in a results directory"""
 import json, os, re, sys
 sys.path.insert(0, os.path.dirname(__file__))
-from r3_meta_table import T, ADDED
+from r3_meta_table import T, ADDED, CAUGHT
 res = sys.argv[1] if len(sys.argv) > 1 else "/tmp/r3b"
 root = os.path.join(os.path.dirname(__file__), "..", "seeded")
 for name, (change, needs) in sorted(T.items()):
@@ -17,8 +17,9 @@ for name, (change, needs) in sorted(T.items()):
         "change": change,
         "needs_to_manifest": needs,
         "confirmed": open(os.path.join(d, "confirm.txt")).read().strip(),
-        "ran": [f"tools/confirm_mutant.sh seeded/{name}", f"tools/try_mutant_wt.sh seeded/{name}/patch.diff {name.split('-')[0]}  (patch applied in a scratch worktree of /repo, quick check through VF_REPO) -> {first}"],
-        "caught_by": ", ".join(dict.fromkeys(viol[:4])) or "NOT CAUGHT",
+        "ran": [f"tools/confirm_mutant.sh seeded/{name}", f"tools/try_mutant_wt.sh seeded/{name}/patch.diff {name.split('-')[0]}  (patch applied in a scratch worktree of /repo, quick check through VF_REPO) -> {first}"]
+               + ([f"after strengthening: tools/try_mutant_wt.sh seeded/{name}/patch.diff {name.split('-')[0]} --only '<added family>|selftest' -> exit=1, VIOLATION"] if name in CAUGHT else []),
+        "caught_by": CAUGHT.get(name) or ", ".join(dict.fromkeys(viol[:4])) or "NOT CAUGHT",
         "origin": "third-round independent sub-agent (property text + scratch worktree + the change ideas of rounds 1-2 named as off-limits; three changes per property)",
     }
     if name in ADDED:
